@@ -86,6 +86,8 @@ def routines(run: Run, pool: Pool, n_per_op: int, cov: dict):
     impl_res, exprs, tds_out = [], [], []
     for k, c in enumerate(cases):
         c["mlv"], c["opv"] = (3, 4, 5)[k % 3], (17, 18, 19, 20, 21)[k % 5]
+        if c["op"].startswith("TreeEnsemble") and c["mlv"] == 5:
+            c["mlv"] = 4  # ai.onnx.ml v5 no longer has TreeEnsembleClassifier / TreeEnsembleRegressor
         r, tds = real_outcome(c, ml[c["mlv"]], op[c["opv"]])
         impl_res.append(r)
         tds_out.append(tds)
@@ -297,6 +299,15 @@ def loop_corr_terms(prog, env, origin):
     return out
 
 
+def step_deps(s):
+    d = list(s.get("args", []))
+    if "M" in s:
+        d.append(s["M"])
+    for sub in s.get("then", []) + s.get("else", []):
+        d += step_deps(sub)
+    return d
+
+
 def cone_of(prog, origin, var_index):
     """The sub-program that the Var depends on (steps re-indexed) — the replayable minimal program."""
     n_in = len(prog["inputs"])
@@ -305,20 +316,13 @@ def cone_of(prog, origin, var_index):
     for idx, o in enumerate(origin):
         first.setdefault(o["step"], idx)
 
-    def deps(s):
-        d = list(s.get("args", []))
-        if "M" in s:
-            d.append(s["M"])
-        for sub in s.get("then", []) + s.get("else", []):
-            d += deps(sub)
-        return d
     while todo:
         i = todo.pop()
         k = origin[i]["step"]
         if k < 0 or k in need_steps:
             continue
         need_steps.add(k)
-        todo += deps(prog["steps"][k])
+        todo += step_deps(prog["steps"][k])
     remap, new_steps, count = {i: i for i in range(n_in)}, [], n_in
     produced = {}
     for idx, o in enumerate(origin):
@@ -417,14 +421,22 @@ def run_programs(run: Run, pool: Pool, progs, cov: dict, tag: str):
                 stats["runs_err"] += 1
                 continue
             stats["runs_ok"] += 1
+            badvars = {}
             for nm, o in zip(res["names"], r[1]):
                 i, td = name2[nm]
                 stats["values_compared"] += 1
                 kind = O.conforms_py(o[0], o[1], td)
-                if kind is None:
-                    continue
+                if kind is not None:
+                    badvars[i] = (kind, o, td)
+            empty = any(0 in s for s in shapes)
+            for i, (kind, o, td) in sorted(badvars.items()):
                 org = origin[i]
                 prog = progs[pi]
+                if any(d in badvars for d in step_deps(prog["steps"][org["step"]])):
+                    stats["derived_nonconforming"] = stats.get("derived_nonconforming", 0) + 1
+                    continue  # an operand already violates its type: not the root cause
+                if empty:
+                    kind += "/empty-input"
                 if org["op"] == "Loop":
                     first = min(j for j, oo in enumerate(origin) if oo["step"] == org["step"])
                     carried = (i - first) < len(prog["steps"][org["step"]]["args"])
